@@ -221,12 +221,15 @@ def accH : Handler := fun inp impl => do
   let want := reqs.map (fun q => if accessDenied rules (accReqOf pools q) then 403 else 301)
   let got := answers.map (fun a => getNatD a "code")
   -- the TCP / gRPC entry points look at the remote address alone
+  let hasDirect := answers.all (fun a => (a.getObjVal? "direct").toOption.isSome)
   let wantAddr := reqs.map (fun q => denyByIP rules (accReqOf pools q).remote)
-  let model := Json.mkObj [("codes", natsJson want), ("addr_denied", toJson wantAddr)]
+  let model := Json.mkObj [("codes", natsJson want), ("addr_denied", toJson wantAddr), ("direct", toJson (want.map (· == 403)))]
   let agree := ci != panicJson && got == want &&
-    answers.map (fun a => getBoolD a "addr_denied") == wantAddr && answers.map (fun a => getBoolD a "tcp_denied") == wantAddr
+    answers.map (fun a => getBoolD a "addr_denied") == wantAddr && answers.map (fun a => getBoolD a "tcp_denied") == wantAddr &&
+    (!hasDirect || answers.map (fun a => getBoolD a "direct") == want.map (· == 403))
   let isolated := answers.length == reqs.length && answers.all (fun a =>
-    getNatD a "code" == getNatD a "alone_code" && getBoolD a "addr_denied" == getBoolD a "alone_denied")
+    getNatD a "code" == getNatD a "alone_code" && getBoolD a "addr_denied" == getBoolD a "alone_denied" &&
+    getBoolD a "direct" == getBoolD a "alone_direct")
   let spec := isolated && agree
   let hasXff := reqs.any (fun q => !(getNats q "xff").isEmpty)
   let odd := reqs.any (fun q => getBoolD q "noport" || (accReqOf pools q).remote.isNone)
